@@ -49,6 +49,70 @@ func c18Numeric(r *rand.Rand, s *specs.Spec) string {
 	}
 }
 
+type c18CatEntry struct {
+	name  string
+	build func() *specs.Spec
+}
+
+// c18Cat: every minimal form of every kind of edit (and the numeric extremes
+// the property names), as the only edit of the only device, at Spec level, and
+// as the only edit of the last of three devices.
+var c18Cat = func() []c18CatEntry {
+	type min struct {
+		name string
+		e    func() specs.ContainerEdits
+	}
+	node := func(n specs.DeviceNode) func() specs.ContainerEdits {
+		return func() specs.ContainerEdits { m := n; return specs.ContainerEdits{DeviceNodes: []*specs.DeviceNode{&m}} }
+	}
+	hook := func(h specs.Hook) func() specs.ContainerEdits {
+		return func() specs.ContainerEdits { m := h; return specs.ContainerEdits{Hooks: []*specs.Hook{&m}} }
+	}
+	rdt := func(i specs.IntelRdt) func() specs.ContainerEdits {
+		return func() specs.ContainerEdits { m := i; return specs.ContainerEdits{IntelRdt: &m} }
+	}
+	mins := []min{
+		{"env A=", func() specs.ContainerEdits { return specs.ContainerEdits{Env: []string{"A="}} }},
+		{"node with a path only", node(specs.DeviceNode{Path: "/dev/x"})},
+		{"node fileMode 2^32-1 uid gid 2^32-1", node(specs.DeviceNode{Path: "/dev/x", Type: "c", FileMode: fmode(math.MaxUint32), UID: u32p(math.MaxUint32), GID: u32p(math.MaxUint32)})},
+		{"node fileMode 0 uid gid 0", node(specs.DeviceNode{Path: "/dev/x", Type: "p", FileMode: fmode(0), UID: u32p(0), GID: u32p(0)})},
+		{"node major minor extremes", node(specs.DeviceNode{Path: "/dev/x", Type: "b", Major: math.MaxInt64, Minor: math.MinInt64})},
+		{"hook without timeout", hook(specs.Hook{HookName: "createRuntime", Path: "/h"})},
+		{"hook timeout 0", hook(specs.Hook{HookName: "prestart", Path: "/h", Timeout: intp(0)})},
+		{"hook timeout 1", hook(specs.Hook{HookName: "poststart", Path: "/h", Timeout: intp(1)})},
+		{"hook timeout 2^31", hook(specs.Hook{HookName: "poststop", Path: "/h", Timeout: intp(1 << 31)})},
+		{"hook timeout 2^32-2", hook(specs.Hook{HookName: "createContainer", Path: "/h", Timeout: intp(math.MaxUint32 - 1)})},
+		{"hook timeout 2^32-1", hook(specs.Hook{HookName: "startContainer", Path: "/h", Timeout: intp(math.MaxUint32)})},
+		{"mount with paths only", func() specs.ContainerEdits {
+			return specs.ContainerEdits{Mounts: []*specs.Mount{{HostPath: "/h", ContainerPath: "/c"}}}
+		}},
+		{"empty intelRdt object", rdt(specs.IntelRdt{})},
+		{"intelRdt closID only", rdt(specs.IntelRdt{ClosID: "c"})},
+		{"intelRdt enableCMT only", rdt(specs.IntelRdt{EnableCMT: true})},
+		{"intelRdt enableMBM only", rdt(specs.IntelRdt{EnableMBM: true})},
+		{"additionalGids [0]", func() specs.ContainerEdits { return specs.ContainerEdits{AdditionalGIDs: []uint32{0}} }},
+		{"additionalGids [2^32-1]", func() specs.ContainerEdits { return specs.ContainerEdits{AdditionalGIDs: []uint32{math.MaxUint32}} }},
+	}
+	var out []c18CatEntry
+	for _, m := range mins {
+		m := m
+		out = append(out,
+			c18CatEntry{m.name + " / only edit of the only device", func() *specs.Spec {
+				return &specs.Spec{Version: "1.0.0", Kind: "vendor.com/gpu", Devices: []specs.Device{{Name: "dev0", ContainerEdits: m.e()}}}
+			}},
+			c18CatEntry{m.name + " / only Spec-level edit", func() *specs.Spec {
+				return &specs.Spec{Version: "1.0.0", Kind: "vendor.com/gpu", ContainerEdits: m.e(), Devices: []specs.Device{{Name: "dev0", ContainerEdits: specs.ContainerEdits{Env: []string{"D=0"}}}}}
+			}},
+			c18CatEntry{m.name + " / only edit of the last of three devices", func() *specs.Spec {
+				return &specs.Spec{Version: "1.0.0", Kind: "vendor.com/gpu", Devices: []specs.Device{
+					{Name: "dev0", ContainerEdits: specs.ContainerEdits{Env: []string{"D=0"}}},
+					{Name: "dev1", ContainerEdits: specs.ContainerEdits{Env: []string{"D=1"}}},
+					{Name: "dev2", ContainerEdits: m.e()}}}
+			}})
+	}
+	return out
+}()
+
 type c18Item struct {
 	Case  string            `json:"case"`
 	Spec  *specs.Spec       `json:"spec"`
@@ -143,7 +207,14 @@ func checkC18(c *Ctx) {
 		var s *specs.Spec
 		tags := map[string]string{}
 		descr := ""
+		var ci int
+		fmt.Sscanf(cs.Name, "gen:%d", &ci)
 		switch k := r.Intn(10); {
+		case ci < len(c18Cat):
+			// the catalogue of minimal edits, each one alone in a device, at Spec level
+			// and in the last of three devices (PRNG independent)
+			s, descr = c18Cat[ci].build(), "catalogue: "+c18Cat[ci].name
+			tags["class"], tags["entry"] = "catalogue", c18Cat[ci].name
 		case k < 3:
 			s = genSpec(r, SpecGen{Marker: "m"})
 			descr = "G-SPEC"
